@@ -79,6 +79,7 @@ MODELS = {
 }
 BUDGET = {"quick": 160, "thorough": 2400}
 NPROC = 16
+KIND_RE = re.compile(r'"e":"([^"]+)"')
 
 
 def run_tree(prop, tier, res, want, variants, budget, events=100):
@@ -132,13 +133,20 @@ def run_tree(prop, tier, res, want, variants, budget, events=100):
     t0 = time.time()
     rcs = vlib.run_parallel(tl, timeout=2400, maxpar=8)
     lines = 0
+    kinds = collections.Counter()
     classes = collections.Counter()
     allcls = collections.Counter()
     samples = []
     for (rc, item) in zip(rcs, tl):
         f = item[1][:-4]
         out = open(f + ".tlc").read()
-        nrec = sum(1 for _ in open(f))
+        nrec = 0
+        with open(f) as fh:
+            for line in fh:
+                nrec += 1
+                mk = KIND_RE.search(line)
+                if mk:
+                    kinds[mk.group(1)] += 1
         m = re.search(r'<<"CONSUMED", (\d+)>>', out)
         if rc != 0 or not m or int(m.group(1)) != nrec:
             raise Inconclusive("TLC did not consume %s: %s" % (f, out[-2500:]))
@@ -164,7 +172,10 @@ def run_tree(prop, tier, res, want, variants, budget, events=100):
             with open(f) as fh:
                 ls = fh.readlines()
                 samples.append([json.loads(x) for x in ls[40:46]])
-    log("%s: TLC validated %d trace lines in %.1fs; other-property classes seen: %s" % (prop, lines, time.time() - t0, dict((k, v) for k, v in allcls.items() if k not in want)))
+    log("%s: TLC validated %d trace lines in %.1fs; other-property classes seen: %s" % (prop, lines, time.time() - t0, dict((k, v) for k, v in allcls.items() if k not in want and k != "__kinds__")))
+    # vacuity: which line kinds of the trace specification were exercised by this run
+    spec_kinds = set(re.findall(r'\[\] e = "([^"]+)"', open(os.path.join(vlib.SPEC, "trace", "TreeTrace.tla")).read())) | {"begin"}
+    allcls["__kinds__"] = dict((k, kinds.get(k, 0)) for k in sorted(spec_kinds))
     return nscen, lines, samples, allcls
 
 
@@ -230,6 +241,8 @@ def check_tree(prop, tier, replay):
         "checker_cmd": "tlc trace/TreeTrace.tla over traces of `harness tree`",
         "classes_judged": sorted(want),
         "not_quiescent_lines": allcls.get("not-quiescent", 0),
+        "trace_line_kinds_seen": allcls.get("__kinds__", {}),
+        "trace_line_kinds_never_seen_in_this_run": sorted(k for k, v in allcls.get("__kinds__", {}).items() if v == 0),
         "mode_s": None if modes is None else {"stimulus_orders_replayed": modes["orders"], "max_length": modes["maxlen"], "exhaustive": True, "sample": modes["samples"][:1]},
     }
     res.assumptions = [
